@@ -552,6 +552,10 @@ func (nfs *Nfs) doRemove(dfh nfstypes.Nfs_fh3, name nfstypes.Filename3, isdir bo
 		util.DPrintf(0, "Remove not a directory %v\n", inodes[0].Kind)
 		return op, nfstypes.NFS3ERR_INVAL
 	}
+	if !isdir && inodes[0].Kind == nfstypes.NF3DIR {
+		// REMOVE does not check for emptiness; directories go through RMDIR
+		return op, nfstypes.NFS3ERR_ISDIR
+	}
 	if isdir && !dir.IsDirEmpty(inodes[0], op) {
 		return op, nfstypes.NFS3ERR_INVAL
 	}
